@@ -6,7 +6,7 @@
    theorems are generic in the bit width.  *_refuted / *_partial / *_iff: the statement at full strength is false
    of the unchanged plugin (witness), and holds exactly / at least on the stated domain. *)
 From Coq Require Import ZArith Bool List.
-From J2O Require Import PyLib Dtype OnnxInt Kernels.
+From J2O Require Import PyLib Dtype Tensor Batch Graph Lowering LoweringSem OnnxInt Kernels Lift LiftProg.
 Import ListNotations.
 Open Scope Z_scope.
 
@@ -296,3 +296,293 @@ Print Assumptions C01K_onnx_round_is_nearest.
 Theorem C01K_onnx_round_ties_to_even : forall n d, 0 < d -> 2 * (n mod d) = d -> Z.even (o_round (n, d)) = true.
 Proof. exact o_round_tie_even. Qed.
 Print Assumptions C01K_onnx_round_ties_to_even.
+
+(* ================================================================ from scalars to tensors and whole programs (Lift.v, LiftProg.v) *)
+(* ---- (b) broadcast algebra, all ranks and extents *)
+Theorem C01K_balign_compose : forall s t idx, bsub s t -> (length t <= length idx)%nat -> balign s (balign t idx) = balign s idx.
+Proof. exact balign_compose. Qed.
+Print Assumptions C01K_balign_compose.
+Theorem C01K_bcast_shape_is_lub : forall s t u, bsub s u -> bsub t u -> bsub (bcast_shape s t) u.
+Proof. exact bsub_bcast_lub. Qed.
+Print Assumptions C01K_bcast_shape_is_lub.
+Theorem C01K_bcast_shape_upper_bound : forall s t, bcompat s t -> bsub s (bcast_shape s t) /\ bsub t (bcast_shape s t).
+Proof. intros s t H. split; [apply bsub_bcast_l | now apply bsub_bcast_r]. Qed.
+Print Assumptions C01K_bcast_shape_upper_bound.
+Theorem C01K_tmap2b_tmap2b_l : forall (A : Type) (d : A) (f g : A -> A -> A) (X Y Z : tensor A) u,
+  bcommon [shape X; shape Y; shape Z] u ->
+  teq (tmap2b f (tmap2b g X Y) Z) (tmap3b (fun x y z => f (g x y) z) X Y Z).
+Proof. exact tmap2b_tmap2b_l. Qed.
+Print Assumptions C01K_tmap2b_tmap2b_l.
+Theorem C01K_tmap2b_tmap2b_r : forall (A : Type) (d : A) (f g : A -> A -> A) (X Y Z : tensor A) u,
+  bcommon [shape X; shape Y; shape Z] u ->
+  teq (tmap2b f X (tmap2b g Y Z)) (tmap3b (fun x y z => f x (g y z)) X Y Z).
+Proof. exact tmap2b_tmap2b_r. Qed.
+Print Assumptions C01K_tmap2b_tmap2b_r.
+Theorem C01K_tmap2b_shared_operand : forall (A : Type) (d : A) (f g : A -> A -> A) (X Y : tensor A),
+  bcompat (shape X) (shape Y) -> teq (tmap2b f X (tmap2b g X Y)) (tmap2b (fun x y => f x (g x y)) X Y).
+Proof. exact tmap2b_shared. Qed.
+Print Assumptions C01K_tmap2b_shared_operand.
+Theorem C01K_tmap2b_scalar_constant : forall (A : Type) (f : A -> A -> A) (X : tensor A) (c : A),
+  teq (tmap2b f X (tscalar c)) (tmap (fun x => f x c) X) /\ teq (tmap2b f (tscalar c) X) (tmap (fun x => f c x) X).
+Proof. intros. split; [apply tmap2b_const_r | apply tmap2b_const_l]. Qed.
+Print Assumptions C01K_tmap2b_scalar_constant.
+Theorem C01K_tmap2b_ones_constant : forall (A : Type) (f : A -> A -> A) (X : tensor A) (c : A) k, (k <= rank X)%nat ->
+  teq (tmap2b f X (mkT (repeat 1%nat k) (fun _ => c))) (tmap (fun x => f x c) X).
+Proof. exact tmap2b_ones_r. Qed.
+Print Assumptions C01K_tmap2b_ones_constant.
+
+(* ---- (c) the lifting theorem, once for every operator graph *)
+Theorem C01K_keval_lift : forall (A O1 O2 O3 : Type) (s1 : O1 -> A -> A) (s2 : O2 -> A -> A -> A) (s3 : O3 -> A -> A -> A -> A)
+    (dflt : A) (e : kexpr A O1 O2 O3) (Xs : list (tensor A)),
+  kwf e (map (@shape A) Xs) ->
+  forall idx, (length (kshape e (map (@shape A) Xs)) <= length idx)%nat ->
+  bcast_at (keval_t s1 s2 s3 dflt e Xs) idx = keval_s s1 s2 s3 dflt e (map (fun X => bcast_at X idx) Xs).
+Proof. exact keval_lift. Qed.
+Print Assumptions C01K_keval_lift.
+Theorem C01K_keval_t_is_elementwise_map : forall (A O1 O2 O3 : Type) (s1 : O1 -> A -> A) (s2 : O2 -> A -> A -> A)
+    (s3 : O3 -> A -> A -> A -> A) (dflt : A) (e : kexpr A O1 O2 O3) (Xs : list (tensor A)) u,
+  bcommon (map (@shape A) Xs) u -> (forall i, (i < length Xs)%nat -> kuses i e) ->
+  teq (keval_t s1 s2 s3 dflt e Xs) (tmapN (keval_s s1 s2 s3 dflt e) Xs).
+Proof. exact keval_t_tmapN. Qed.
+Print Assumptions C01K_keval_t_is_elementwise_map.
+(* the kernels' graphs ARE lowered_k (a few; all of them are in Lift.v as ke_<k>_sound, by computation) *)
+Theorem C01K_ke_rem_sound : forall sb x y, kev_s (ke_rem sb) [VZ x; VZ y] = VZ (lowered_rem sb x y).
+Proof. exact ke_rem_sound. Qed.
+Print Assumptions C01K_ke_rem_sound.
+Theorem C01K_ke_mod_sound : forall sb x y, kev_s (ke_mod sb) [VZ x; VZ y] = VZ (lowered_mod sb x y).
+Proof. exact ke_mod_sound. Qed.
+Print Assumptions C01K_ke_mod_sound.
+Theorem C01K_ke_shift_right_arithmetic_sound : forall sb x s,
+  kev_s (ke_shift_right_arithmetic sb) [VZ x; VZ s] = VZ (lowered_shift_right_arithmetic sb x s).
+Proof. exact ke_shift_right_arithmetic_sound. Qed.
+Print Assumptions C01K_ke_shift_right_arithmetic_sound.
+Theorem C01K_ke_round_away_sound : forall q, kev_s ke_round_away [VQ q] = VZ (lowered_round_away q).
+Proof. exact ke_round_away_sound. Qed.
+Print Assumptions C01K_ke_round_away_sound.
+
+(* the lifted kernel theorems: the tensor-level value of the emitted graph on broadcast-compatible operands is the
+   elementwise JAX function with numpy broadcasting (zt / bt / qt inject integer / boolean / fraction tensors) *)
+Theorem C01K_add_lifted : forall sb X Y, bcompat (shape X) (shape Y) ->
+  teq (kev_t (ke_add sb) [zt X; zt Y]) (zt (tmap2b (jax_add sb) X Y)).
+Proof. exact add_lifted. Qed.
+Print Assumptions C01K_add_lifted.
+Theorem C01K_sub_lifted : forall sb X Y, bcompat (shape X) (shape Y) ->
+  teq (kev_t (ke_sub sb) [zt X; zt Y]) (zt (tmap2b (jax_sub sb) X Y)).
+Proof. exact sub_lifted. Qed.
+Print Assumptions C01K_sub_lifted.
+Theorem C01K_mul_lifted : forall sb X Y, bcompat (shape X) (shape Y) ->
+  teq (kev_t (ke_mul sb) [zt X; zt Y]) (zt (tmap2b (jax_mul sb) X Y)).
+Proof. exact mul_lifted. Qed.
+Print Assumptions C01K_mul_lifted.
+Theorem C01K_neg_lifted : forall sb, 0 < snd sb -> forall X, tdom1 (in_int sb) X ->
+  teq (kev_t (ke_neg sb) [zt X]) (zt (tmap (jax_neg sb) X)).
+Proof. exact neg_lifted. Qed.
+Print Assumptions C01K_neg_lifted.
+Theorem C01K_abs_lifted : forall sb, 0 < snd sb -> forall X, is_signed sb = true -> tdom1 (in_int sb) X ->
+  teq (kev_t (ke_abs sb) [zt X]) (zt (tmap (jax_abs sb) X)).
+Proof. exact abs_lifted. Qed.
+Print Assumptions C01K_abs_lifted.
+Theorem C01K_sign_lifted : forall sb, 0 < snd sb -> forall X, tdom1 (in_int sb) X ->
+  teq (kev_t (ke_sign sb) [zt X]) (zt (tmap (jax_sign sb) X)).
+Proof. exact sign_lifted. Qed.
+Print Assumptions C01K_sign_lifted.
+Theorem C01K_div_lifted : forall sb, 0 < snd sb -> forall X Y, bcompat (shape X) (shape Y) ->
+  tdom2 (fun x y => in_int sb x /\ in_int sb y /\ div_dom sb x y) X Y ->
+  teq (kev_t (ke_div sb) [zt X; zt Y]) (zt (tmap2b (jax_div sb) X Y)).
+Proof. exact div_lifted. Qed.
+Print Assumptions C01K_div_lifted.
+Theorem C01K_rem_lifted : forall sb, 0 < snd sb -> forall X Y, bcompat (shape X) (shape Y) ->
+  tdom2 (fun x y => in_int sb x /\ in_int sb y /\ y <> 0) X Y ->
+  teq (kev_t (ke_rem sb) [zt X; zt Y]) (zt (tmap2b (jax_rem sb) X Y)).
+Proof. exact rem_lifted. Qed.
+Print Assumptions C01K_rem_lifted.
+Theorem C01K_floor_divide_lifted : forall sb, 0 < snd sb -> forall X Y, bcompat (shape X) (shape Y) ->
+  tdom2 (fun x y => in_int sb x /\ in_int sb y /\ div_dom sb x y) X Y ->
+  teq (kev_t (ke_floor_divide sb) [zt X; zt Y]) (zt (tmap2b (jax_floor_divide sb) X Y)).
+Proof. exact floor_divide_lifted. Qed.
+Print Assumptions C01K_floor_divide_lifted.
+Theorem C01K_mod_lifted : forall sb, 0 < snd sb -> forall X Y, in_int sb 1 -> bcompat (shape X) (shape Y) ->
+  tdom2 (fun x y => in_int sb x /\ in_int sb y) X Y ->
+  teq (kev_t (ke_mod sb) [zt X; zt Y]) (zt (tmap2b (jax_mod sb) X Y)).
+Proof. exact mod_lifted. Qed.
+Print Assumptions C01K_mod_lifted.
+Theorem C01K_fmod_lifted : forall sb, 0 < snd sb -> forall X Y, in_int sb 1 -> bcompat (shape X) (shape Y) ->
+  tdom2 (fun x y => in_int sb x /\ in_int sb y) X Y ->
+  teq (kev_t (ke_fmod sb) [zt X; zt Y]) (zt (tmap2b (jax_fmod sb) X Y)).
+Proof. exact fmod_lifted. Qed.
+Print Assumptions C01K_fmod_lifted.
+Theorem C01K_max_lifted : forall X Y, bcompat (shape X) (shape Y) -> teq (kev_t ke_max [zt X; zt Y]) (zt (tmap2b jax_max X Y)).
+Proof. exact max_lifted. Qed.
+Print Assumptions C01K_max_lifted.
+Theorem C01K_min_lifted : forall X Y, bcompat (shape X) (shape Y) -> teq (kev_t ke_min [zt X; zt Y]) (zt (tmap2b jax_min X Y)).
+Proof. exact min_lifted. Qed.
+Print Assumptions C01K_min_lifted.
+Theorem C01K_clamp_lifted : forall X Lo Hi u, bcommon [shape X; shape Lo; shape Hi] u ->
+  teq (kev_t ke_clamp [zt X; zt Lo; zt Hi]) (zt (tmap3b jax_clamp X Lo Hi)).
+Proof. exact clamp_lifted. Qed.
+Print Assumptions C01K_clamp_lifted.
+Theorem C01K_clip_lifted : forall X Lo Hi u, bcommon [shape X; shape Lo; shape Hi] u ->
+  teq (kev_t ke_clamp [zt X; zt Lo; zt Hi]) (zt (tmap3b jax_clip X Lo Hi)).
+Proof. exact clip_lifted. Qed.
+Print Assumptions C01K_clip_lifted.
+Theorem C01K_relu_lifted : forall X, teq (kev_t ke_relu [zt X]) (zt (tmap jax_relu X)).
+Proof. exact relu_lifted. Qed.
+Print Assumptions C01K_relu_lifted.
+Theorem C01K_relu6_lifted : forall X, teq (kev_t ke_relu6 [zt X]) (zt (tmap jax_relu6 X)).
+Proof. exact relu6_lifted. Qed.
+Print Assumptions C01K_relu6_lifted.
+Theorem C01K_select_n_lifted : forall (P : tensor bool) X Y u, bcommon [shape P; shape X; shape Y] u ->
+  teq (kev_t ke_select_n [bt P; zt X; zt Y]) (zt (tmap3b jax_select_n P X Y)).
+Proof. exact select_n_lifted. Qed.
+Print Assumptions C01K_select_n_lifted.
+Theorem C01K_select_n_bool_lifted : forall (P X Y : tensor bool) u, bcommon [shape P; shape X; shape Y] u ->
+  teq (kev_t ke_select_n_b [bt P; bt X; bt Y]) (bt (tmap3b jax_select_n_b P X Y)).
+Proof. exact select_n_bool_lifted. Qed.
+Print Assumptions C01K_select_n_bool_lifted.
+Theorem C01K_select_n_int_lifted : forall P X Y u, bcommon [shape P; shape X; shape Y] u ->
+  tdom3 (fun p _ _ => p = 0 \/ p = 1) P X Y ->
+  teq (kev_t ke_select_n_int [zt P; zt X; zt Y]) (zt (tmap3b jax_select_n_int P X Y)).
+Proof. exact select_n_int_lifted. Qed.
+Print Assumptions C01K_select_n_int_lifted.
+Theorem C01K_where_lifted : forall (P : tensor bool) X Y u, bcommon [shape P; shape X; shape Y] u ->
+  teq (kev_t ke_where [bt P; zt X; zt Y]) (zt (tmap3b jax_where P X Y)).
+Proof. exact where_lifted. Qed.
+Print Assumptions C01K_where_lifted.
+Theorem C01K_where_bool_lifted : forall (P X Y : tensor bool) u, bcommon [shape P; shape X; shape Y] u ->
+  teq (kev_t ke_where_b [bt P; bt X; bt Y]) (bt (tmap3b jax_where_b P X Y)).
+Proof. exact where_bool_lifted. Qed.
+Print Assumptions C01K_where_bool_lifted.
+Theorem C01K_bool_and_lifted : forall (X Y : tensor bool), bcompat (shape X) (shape Y) ->
+  teq (kev_t ke_bool_and [bt X; bt Y]) (bt (tmap2b jax_bool_and X Y)).
+Proof. exact bool_and_lifted. Qed.
+Print Assumptions C01K_bool_and_lifted.
+Theorem C01K_bool_or_lifted : forall (X Y : tensor bool), bcompat (shape X) (shape Y) ->
+  teq (kev_t ke_bool_or [bt X; bt Y]) (bt (tmap2b jax_bool_or X Y)).
+Proof. exact bool_or_lifted. Qed.
+Print Assumptions C01K_bool_or_lifted.
+Theorem C01K_bool_xor_lifted : forall (X Y : tensor bool), bcompat (shape X) (shape Y) ->
+  teq (kev_t ke_bool_xor [bt X; bt Y]) (bt (tmap2b jax_bool_xor X Y)).
+Proof. exact bool_xor_lifted. Qed.
+Print Assumptions C01K_bool_xor_lifted.
+Theorem C01K_bool_not_lifted : forall (X : tensor bool), teq (kev_t ke_bool_not [bt X]) (bt (tmap jax_bool_not X)).
+Proof. exact bool_not_lifted. Qed.
+Print Assumptions C01K_bool_not_lifted.
+Theorem C01K_bitand_lifted : forall sb X Y, bcompat (shape X) (shape Y) ->
+  teq (kev_t (ke_bitand sb) [zt X; zt Y]) (zt (tmap2b (jax_bitand sb) X Y)).
+Proof. exact bitand_lifted. Qed.
+Print Assumptions C01K_bitand_lifted.
+Theorem C01K_bitor_lifted : forall sb X Y, bcompat (shape X) (shape Y) ->
+  teq (kev_t (ke_bitor sb) [zt X; zt Y]) (zt (tmap2b (jax_bitor sb) X Y)).
+Proof. exact bitor_lifted. Qed.
+Print Assumptions C01K_bitor_lifted.
+Theorem C01K_bitxor_lifted : forall sb X Y, bcompat (shape X) (shape Y) ->
+  teq (kev_t (ke_bitxor sb) [zt X; zt Y]) (zt (tmap2b (jax_bitxor sb) X Y)).
+Proof. exact bitxor_lifted. Qed.
+Print Assumptions C01K_bitxor_lifted.
+Theorem C01K_bitnot_lifted : forall sb, 0 < snd sb -> forall X, tdom1 (in_int sb) X ->
+  teq (kev_t (ke_bitnot sb) [zt X]) (zt (tmap (jax_bitnot sb) X)).
+Proof. exact bitnot_lifted. Qed.
+Print Assumptions C01K_bitnot_lifted.
+Theorem C01K_shift_left_lifted : forall sb, 0 < snd sb -> forall X S, bcompat (shape X) (shape S) ->
+  tdom2 (fun x s => in_int sb s /\ 0 <= s) X S ->
+  teq (kev_t (ke_shift_left sb) [zt X; zt S]) (zt (tmap2b (jax_shift_left sb) X S)).
+Proof. exact shift_left_lifted. Qed.
+Print Assumptions C01K_shift_left_lifted.
+Theorem C01K_shift_right_logical_lifted : forall sb, 0 < snd sb -> forall X S, bcompat (shape X) (shape S) ->
+  tdom2 (fun x s => in_int sb x /\ in_int sb s /\ 0 <= s) X S ->
+  teq (kev_t (ke_shift_right_logical sb) [zt X; zt S]) (zt (tmap2b (jax_shift_right_logical sb) X S)).
+Proof. exact shift_right_logical_lifted. Qed.
+Print Assumptions C01K_shift_right_logical_lifted.
+Theorem C01K_shift_right_arithmetic_lifted : forall sb, 0 < snd sb -> forall X S, bcompat (shape X) (shape S) ->
+  tdom2 (fun x s => in_int sb x /\ in_int sb s /\ 0 <= s) X S ->
+  teq (kev_t (ke_shift_right_arithmetic sb) [zt X; zt S]) (zt (tmap2b (jax_shift_right_arithmetic sb) X S)).
+Proof. exact shift_right_arithmetic_lifted. Qed.
+Print Assumptions C01K_shift_right_arithmetic_lifted.
+Theorem C01K_eq_lifted : forall X Y, bcompat (shape X) (shape Y) -> teq (kev_t ke_eq [zt X; zt Y]) (bt (tmap2b jax_eq X Y)).
+Proof. exact eq_lifted. Qed.
+Print Assumptions C01K_eq_lifted.
+Theorem C01K_ne_lifted : forall X Y, bcompat (shape X) (shape Y) -> teq (kev_t ke_ne [zt X; zt Y]) (bt (tmap2b jax_ne X Y)).
+Proof. exact ne_lifted. Qed.
+Print Assumptions C01K_ne_lifted.
+Theorem C01K_lt_lifted : forall X Y, bcompat (shape X) (shape Y) -> teq (kev_t ke_lt [zt X; zt Y]) (bt (tmap2b jax_lt X Y)).
+Proof. exact lt_lifted. Qed.
+Print Assumptions C01K_lt_lifted.
+Theorem C01K_le_lifted : forall X Y, bcompat (shape X) (shape Y) -> teq (kev_t ke_le [zt X; zt Y]) (bt (tmap2b jax_le X Y)).
+Proof. exact le_lifted. Qed.
+Print Assumptions C01K_le_lifted.
+Theorem C01K_gt_lifted : forall X Y, bcompat (shape X) (shape Y) -> teq (kev_t ke_gt [zt X; zt Y]) (bt (tmap2b jax_gt X Y)).
+Proof. exact gt_lifted. Qed.
+Print Assumptions C01K_gt_lifted.
+Theorem C01K_ge_lifted : forall X Y, bcompat (shape X) (shape Y) -> teq (kev_t ke_ge [zt X; zt Y]) (bt (tmap2b jax_ge X Y)).
+Proof. exact ge_lifted. Qed.
+Print Assumptions C01K_ge_lifted.
+Theorem C01K_eq_bool_lifted : forall (X Y : tensor bool), bcompat (shape X) (shape Y) ->
+  teq (kev_t ke_eq_b [bt X; bt Y]) (bt (tmap2b jax_eq_b X Y)).
+Proof. exact eq_bool_lifted. Qed.
+Print Assumptions C01K_eq_bool_lifted.
+Theorem C01K_ne_bool_lifted : forall (X Y : tensor bool), bcompat (shape X) (shape Y) ->
+  teq (kev_t ke_ne_b [bt X; bt Y]) (bt (tmap2b jax_ne_b X Y)).
+Proof. exact ne_bool_lifted. Qed.
+Print Assumptions C01K_ne_bool_lifted.
+Theorem C01K_integer_pow_lifted : forall sb, 0 < snd sb -> forall n X, tdom1 (in_int sb) X ->
+  teq (kev_t (ke_integer_pow sb n) [zt X]) (zt (tmap (fun x => jax_integer_pow sb x n) X)).
+Proof. exact integer_pow_lifted. Qed.
+Print Assumptions C01K_integer_pow_lifted.
+Theorem C01K_convert_int_lifted : forall sb X, teq (kev_t (ke_convert_int sb) [zt X]) (zt (tmap (jax_convert_int sb) X)).
+Proof. exact convert_int_lifted. Qed.
+Print Assumptions C01K_convert_int_lifted.
+Theorem C01K_convert_to_bool_lifted : forall X, teq (kev_t ke_convert_to_bool [zt X]) (bt (tmap jax_convert_to_bool X)).
+Proof. exact convert_to_bool_lifted. Qed.
+Print Assumptions C01K_convert_to_bool_lifted.
+Theorem C01K_convert_of_bool_lifted : forall sb (X : tensor bool),
+  teq (kev_t (ke_convert_of_bool sb) [bt X]) (zt (tmap (jax_convert_of_bool sb) X)).
+Proof. exact convert_of_bool_lifted. Qed.
+Print Assumptions C01K_convert_of_bool_lifted.
+Theorem C01K_floor_lifted : forall X, tdom1 frac_ok X -> teq (kev_t ke_floor [qt X]) (zt (tmap jax_floor X)).
+Proof. exact floor_lifted. Qed.
+Print Assumptions C01K_floor_lifted.
+Theorem C01K_ceil_lifted : forall X, tdom1 frac_ok X -> teq (kev_t ke_ceil [qt X]) (zt (tmap jax_ceil X)).
+Proof. exact ceil_lifted. Qed.
+Print Assumptions C01K_ceil_lifted.
+Theorem C01K_round_even_lifted : forall X, tdom1 frac_ok X -> teq (kev_t ke_round [qt X]) (zt (tmap jax_round_even X)).
+Proof. exact round_even_lifted. Qed.
+Print Assumptions C01K_round_even_lifted.
+Theorem C01K_round_away_lifted : forall X, tdom1 frac_ok X -> teq (kev_t ke_round_away [qt X]) (zt (tmap jax_round_away X)).
+Proof. exact round_away_lifted. Qed.
+Print Assumptions C01K_round_away_lifted.
+
+(* ---- (d) whole programs: the plugin contract of LoweringSem and the full-strength theorem for the exact fragment.
+   Domain side conditions are carried by kpsem: the JAX program is DEFINED (jeval = Some) exactly when at every equation
+   the operands have a common broadcast shape and every tuple of elements that meets is a value of the element type and
+   satisfies the kernel's condition — no division by zero and no INT_MIN / -1 (div, rem), shift amounts >= 0. *)
+Theorem C01K_kernel_registry_meets_plugin_contract : forall (tab : ktable) (lit : cten),
+  (forall p k, tab p = Some k -> kern_ok k) -> eqn_contract cten (kpsem tab) (kgsem lit) (kreg tab) lit.
+Proof. exact kreg_contract. Qed.
+Print Assumptions C01K_kernel_registry_meets_plugin_contract.
+Theorem C01K_exact_table_ok : forall p k, exact_table p = Some k -> kern_ok k.
+Proof. exact exact_table_ok. Qed.
+Print Assumptions C01K_exact_table_ok.
+Theorem C01K_exact_fragment_correct : forall (lit : cten) (jp : jaxpr) (s s' : sctx),
+  slower_jaxpr (kreg exact_table) s jp = Ok s' ->
+  forall (r : jenv cten) (g : env cten) (r' : jenv cten),
+  related cten s r g -> jeval cten (kpsem exact_table) lit jp r = Some r' ->
+  exists new g', s_nodes s' = s_nodes s ++ new /\ eval cten (kgsem lit) new g = Some g' /\
+                 genv_le cten g g' /\ related cten s' r' g'.
+Proof. exact exact_table_fragment_correct. Qed.
+Print Assumptions C01K_exact_fragment_correct.
+Theorem C01K_exact_fragment_outputs : forall (lit : cten) jp s s' r g r' outvars,
+  slower_jaxpr (kreg exact_table) s jp = Ok s' -> related cten s r g -> jeval cten (kpsem exact_table) lit jp r = Some r' ->
+  Forall (fun v => bound (erase s') v <> None) outvars ->
+  exists new g', s_nodes s' = s_nodes s ++ new /\ eval cten (kgsem lit) new g = Some g' /\
+    Forall (fun v => exists n a, bound (erase s') v = Some n /\ g' n = Some a /\ r' v = Some a) outvars.
+Proof. intros lit jp s s' r g r' ov. exact (exact_fragment_outputs exact_table lit exact_table_ok jp s s' r g r' ov). Qed.
+Print Assumptions C01K_exact_fragment_outputs.
+(* non-vacuity: where(x < y, x * 3 - y, y), x : int32[2,3], y : int32[3] — lowers, JAX and the graph agree *)
+Theorem C01K_example_program : 
+  match slower_jaxpr (kreg exact_table) ex_s0 ex_prog with
+  | Ok s' => match eval cten (kgsem ex_lit3) (s_nodes s') ex_g0 with Some g' => g' 6%nat | None => None end
+  | Err _ => None
+  end = match jeval cten (kpsem exact_table) ex_lit3 ex_prog ex_r0 with Some r' => r' 5%nat | None => None end
+  /\ match jeval cten (kpsem exact_table) ex_lit3 ex_prog ex_r0 with Some r' => r' 5%nat | None => None end <> None.
+Proof. rewrite ex_prog_onnx, ex_prog_jax. split; [reflexivity | discriminate]. Qed.
+Print Assumptions C01K_example_program.
